@@ -189,9 +189,18 @@ def interrupt_alone(tr, outcome, raised, env, ex, s):
     return z3.If(anyint, one, same)
 
 
+def collector_complete(tr, outcome, raised, env, ex, s):
+    """C11: once the workers have been gathered, the collector visits EVERY result before the step returns or raises (the loop
+    is never left early: the outputs of the successful siblings of a failing node are applied before the failure surfaces)."""
+    gathered = any(e[0] == "call" and "gather" in str(e[1]) for e in tr)
+    if not gathered or any(e[0] == "raised-by" and "gather" in str(e[1]) for e in tr):
+        return True
+    return any(e[0] == "loop-exhausted" and e[1] == 0 for e in tr)
+
+
 CONTRACTS.update({
     AS + "run_superstep_async": dict(
-        props=["C02", "C14"],
+        props=["C02", "C11", "C14"],
         params=dict(SUPERSTEP_PARAMS, max_concurrency=OPT(INT)),
         returns=OBJ("GraphState"),
         may_raise={"BaseException": True},
@@ -199,7 +208,8 @@ CONTRACTS.update({
         ensures=["result is not state"],
         modifies=[],
         trace=[{"name": "C02 the collected outputs are written to the copy, never to the snapshot", "check": isolation(set())},
-               {"name": "C14 a ready interrupt runs alone: one worker, for the first ready interrupt; otherwise one worker per ready node", "check": interrupt_alone}],
+               {"name": "C14 a ready interrupt runs alone: one worker, for the first ready interrupt; otherwise one worker per ready node", "check": interrupt_alone},
+               {"name": "C11 the collector visits every gathered result before the step returns or raises (no early exit)", "check": collector_complete}],
         loops=[{"modifies": ["new_state.values", "new_state.versions", "new_state.node_executions"], "invariant": ["new_state is not state"],
                 "body_trace": [{"name": "C02 outputs applied to the copy", "check": isolation(set())}]},
                {"modifies": ["new_state.values", "new_state.versions"], "invariant": []}],
